@@ -9,7 +9,7 @@ Grid: a selection of the configuration zoo (parsed from harness/src/zoo.rs: 1, 2
 limbs, with / without spare bit, derived and hand-written, oversized limb counts) x values
 {0, 1, small, 2^63, 2^64-1, 2^64, p-1, p, p+1, 2p, (p-1)/2, R, 2^(64N)-1, hexit-chunk boundaries,
 pseudo-random} x radices {decimal, 0x, 0X, 0o, 0O, 0b, 0B} x {plain, '-', leading zeros, '_',
-upper/mixed case} + the odd forms the macro accepts ("--5", "0x-5", "+5", "-0", "1_", …) + escaped
+upper/mixed case} + the odd forms the macro accepts ("--5", "-+5", "-+0", "0x-5", "+5", "-0", "1_", …) + escaped
 and raw Rust string literals.  Only literals the macros ACCEPT can be listed (the crate must compile).
 
 Also: additional `#[derive(MontConfig)]` configurations with unusual attribute spellings and with
@@ -167,7 +167,7 @@ def variant(v, k):
 # forms outside the conventional grammar which the macro nevertheless accepts (see str_to_limbs_u64 and
 # num-bigint's from_str_radix), and conventional corner cases
 SPECIALS = [
-    "--5", "0x-5", "-0x-5", "+5", "0x+5", "-0x+5", "0o-7", "-0b-1", "0B+1",
+    "--5", "-+5", "-+0", "0x-5", "-0x-5", "+5", "0x+5", "-0x+5", "0o-7", "-0b-1", "0B+1",
     "-0", "-0x0", "-00", "-0b0", "-0o0", "--0", "0x-0", "00", "0x00", "0_0", "0x0_0",
     "1_", "1__2", "0x1_", "9_9", "0b0_1", "0o1_7_", "+0", "+1_0",
     "0xAbCdEf", "0XaBcDeF", "0xabcdef", "0XABCDEF",
